@@ -12,7 +12,8 @@ ID = "C03"
 LEVEL = "exploration"
 RULE = ("Seeded plans: a byzantine agent over a universe of 4-12 OIDs (inside / equal to / before / after the roots) whose "
         "GETNEXT function is the sorted successor overridden by 0-4 explicit deviations (requested OID, repetition index) -> "
-        "(returned OID | endOfMibView): same OID, smaller OID, cycles, leaving a subtree and coming back; operations walk, "
+        "(returned OID | endOfMibView, also under an arbitrary name | noSuchInstance/noSuchObject under the requested or another "
+        "name): same OID, smaller OID, cycles, leaving a subtree and coming back; operations walk, "
         "multiwalk (1-3 roots), bulkwalk (bulk 1-4), table, bulktable; strict and lenient mode; in 15% of the bulk plans the agent "
         "answers with an EMPTY binding list from its k-th GETBULK request on. Non-trivial: >=1 deviation "
         "was actually served or >=3 requests were made; distinct = distinct (operation, mode, bulk, number of roots, sequence "
@@ -24,7 +25,7 @@ ASSUMPTIONS = [
     "a non-advancing repetition in a GETBULK column that has already left its root may be ignored or refused",
 ]
 PROBES = ["same_oid", "smaller_oid", "leave_and_return", "eom_midway", "bulk_nonadvance_later_rep",
-          "lenient", "faulty_raised", "all_advance", "empty_bulk_response"]
+          "lenient", "faulty_raised", "all_advance", "empty_bulk_response", "eom_under_foreign_name", "get_marker_in_getnext_answer"]
 shrink_lists = [("dev",), ("universe",), ("roots",)]
 OPS = ["walk", "multiwalk", "bulkwalk", "table", "bulktable"]
 
@@ -55,9 +56,15 @@ def plan_for(tier: str, seed: int, i: int) -> dict:
     for _ in range(rng.choice([0, 1, 1, 1, 2, 2, 3, 4])):
         frm = rng.choice(universe + roots)
         r = rng.random()
-        if r < 0.2:
+        if r < 0.17:
             to: Any = "eom"
-        elif r < 0.45:
+        elif r < 0.24:
+            # endOfMibView under an arbitrary name (a conformant agent names it after the variable it could not step from)
+            to = ["eom", rng.choice(universe + [(0, 0), frm])]
+        elif r < 0.31:
+            # an exception marker that only GET may return, under the requested or another name
+            to = [rng.choice(["nsi", "nso"]), rng.choice([frm, frm, rng.choice(universe)])]
+        elif r < 0.5:
             to = frm                        # same OID
         else:
             to = rng.choice(universe)       # anything: smaller, cycle, jump out and back
@@ -100,7 +107,12 @@ def execute(plan: dict) -> dict:
     universe = sorted(tuple(o) for o in plan["universe"])
     dev: Dict[Tuple[tuple, Optional[int]], Any] = {}
     for frm, rep, to in plan["dev"]:
-        dev[(tuple(frm), rep)] = to if to == "eom" else tuple(to)
+        if to == "eom":
+            dev[(tuple(frm), rep)] = "eom"
+        elif isinstance(to, (list, tuple)) and to and isinstance(to[0], str):
+            dev[(tuple(frm), rep)] = (to[0], tuple(to[1]))      # (marker kind, name)
+        else:
+            dev[(tuple(frm), rep)] = tuple(to)
     op = plan["op"]
     w = World()
     agent = RefAgent({o: ("int", 1) for o in universe}, communities={1: {b"public"}})
@@ -115,7 +127,12 @@ def execute(plan: dict) -> dict:
             res = (oid, EOM) if nxt is None else (nxt, ("int", len(nxt)))
         else:
             dev_served += 1
-            res = (oid, EOM) if to == "eom" else (to, ("int", len(to)))
+            if to == "eom":
+                res = (oid, EOM)
+            elif isinstance(to[0], str):
+                res = (to[1], (to[0], None))
+            else:
+                res = (to, ("int", len(to)))
         served.append((oid, rep, res))
         return res
 
@@ -256,6 +273,8 @@ def execute(plan: dict) -> dict:
         "bulk_nonadvance_later_rep": int(op in ("bulkwalk", "bulktable") and any_nonadv and not relevant_nonadv),
         "lenient": int(lenient), "faulty_raised": int(excname == "FaultySNMPImplementation"),
         "all_advance": int(not any_nonadv), "empty_bulk_response": int(empty_served[0] > 0),
+        "eom_under_foreign_name": int(any(v[0] == "eom" and o != q for q, _, (o, v) in served)),
+        "get_marker_in_getnext_answer": int(any(v[0] in ("nsi", "nso") for _, _, (_, v) in served)),
     }
     counters = dict(w.net.counters)
     for k, v in probes.items():
@@ -294,4 +313,5 @@ def describe(plan: dict) -> str:
     return "op=%s errors=%s bulk=%s roots=%s\nuniverse=%s\ndeviations=%s" % (
         plan["op"], plan["errors"], plan["bulk"], [S.oid_str(tuple(r)) for r in plan["roots"]],
         [S.oid_str(tuple(o)) for o in plan["universe"]],
-        [(S.oid_str(tuple(f)), r, t if t == "eom" else S.oid_str(tuple(t))) for f, r, t in plan["dev"]])
+        [(S.oid_str(tuple(f)), r, t if t == "eom" else ((t[0], S.oid_str(tuple(t[1]))) if isinstance(t[0], str) else S.oid_str(tuple(t))))
+         for f, r, t in plan["dev"]])
